@@ -46,6 +46,7 @@ encoder validation.
 from __future__ import annotations
 
 import ast
+import ast as pyast
 import json
 import os
 
@@ -986,7 +987,49 @@ def front_end_context(ctx):
     ctx.add(core.decided('InstanceCollectionConfigs/name_pool_config-holds-PoolConfigs-and-jpim_config-the-job-private-config', ok, '', kind='scan'))
 
 
+def _selection_is_pure(ctx):
+    """frame of the selection functions: InstanceCollectionConfigs.select_* decide from their arguments and the configured
+    collections only - they assign no attribute of self and mutate no container reached through self (a remembered decision
+    would outlive a refresh of the configuration)"""
+    tree = pyast.parse(core.read_repo(ICC))
+    cls = [n for n in tree.body if isinstance(n, pyast.ClassDef) and n.name == 'InstanceCollectionConfigs']
+    if not cls:
+        raise core.Undecided('anchor-moved: class InstanceCollectionConfigs')
+    mut = pyvc.MUTATORS | {'setdefault', 'popitem', 'pop', '__setitem__'}
+    for fn in cls[0].body:
+        if isinstance(fn, (pyast.FunctionDef, pyast.AsyncFunctionDef)) and fn.name.startswith('select_'):
+            writes = []
+            for n in pyast.walk(fn):
+                tgts = []
+                if isinstance(n, pyast.Assign):
+                    tgts = n.targets
+                elif isinstance(n, (pyast.AugAssign, pyast.AnnAssign)):
+                    tgts = [n.target]
+                elif isinstance(n, pyast.Delete):
+                    tgts = n.targets
+                for t in tgts:
+                    base = t
+                    while isinstance(base, (pyast.Subscript, pyast.Attribute)):
+                        if isinstance(base, pyast.Attribute) and isinstance(base.value, pyast.Name) and base.value.id == 'self':
+                            writes.append(pyast.unparse(t))
+                            break
+                        base = base.value
+                if isinstance(n, pyast.Call) and isinstance(n.func, pyast.Attribute) and n.func.attr in mut:
+                    base = n.func.value
+                    while isinstance(base, (pyast.Subscript, pyast.Attribute)):
+                        if isinstance(base, pyast.Attribute) and isinstance(base.value, pyast.Name) and base.value.id == 'self':
+                            writes.append(pyast.unparse(n.func))
+                            break
+                        base = base.value
+            ctx.add(core.decided('C12/InstanceCollectionConfigs.%s/frame/writes-no-state-of-the-configuration-object' % fn.name, not writes, repr(writes), kind='frame'))
+
+
+def native_witness(ctx):
+    return native('search')
+
+
 def build(ctx):
+    _selection_is_pure(ctx)
     R = replayer_for
     run(ctx, round_up_division(), replayer=R('round_up_division'))
     run(ctx, is_valid_cores_int(), replayer=R('is_valid_cores_mcpu'))
